@@ -45,6 +45,7 @@ type source struct {
 	pos    int
 	gen    func(first bool) uint64 // nil: scripted only
 	first  bool                    // the next word is the first one drawn by the current Add
+	inAdd  int                     // words drawn by the current Add
 	used   []uint64
 }
 
@@ -55,10 +56,16 @@ func (s *source) Uint64() uint64 {
 		s.pos++
 	} else if s.gen != nil {
 		w = s.gen(s.first)
+		if s.inAdd > 100 {
+			// a repaired (looping) Add under an all-keep policy would spin forever: after 100 words
+			// within one Add switch to alternating words, which halve the buffer under either polarity
+			w = altA
+		}
 	} else {
 		panic(noWords{})
 	}
 	s.first = false
+	s.inAdd++
 	s.used = append(s.used, w)
 	return w
 }
@@ -164,6 +171,7 @@ func runCase(cp int, ops []op, src *source) (oracles, output string, inf info) {
 			// a coin word is drawn only when the threshold is below its maximum; otherwise the
 			// first word drawn by this Add already feeds the pass
 			src.first = p0 != math.MaxUint64
+			src.inAdd = 0
 			nw := len(src.used)
 			func() {
 				defer func() {
@@ -200,7 +208,12 @@ func runCase(cp int, ops []op, src *source) (oracles, output string, inf info) {
 			inf.exceeded = true
 		}
 		inf.maxLen = max(inf.maxLen, c.Len())
-		obs = append(obs, fmt.Sprintf("%d:%d:%d", c.Len(), c.Count(), c.VerifP()))
+		var cnt uint64
+		if pk := tr.Catch(func() { cnt = c.Count() }); pk != "" {
+			failed = pk
+			break
+		}
+		obs = append(obs, fmt.Sprintf("%d:%d:%d", c.Len(), cnt, c.VerifP()))
 	}
 	out := strings.Join(obs, ";")
 	if out == "" {
